@@ -179,7 +179,7 @@ def join (sep : Abs) (parts : List Abs) : Abs :=
 /-- `a[i:j]`: the slice of the atoms; the class is kept (the empty slice of a symbol is an empty
 string). -/
 def slice (a : Abs) (i j : Option Int) : Abs :=
-  ⟨if a.top = .symbol ∧ (Flat.slice a.atoms i j).isEmpty then .string else a.top, Flat.slice a.atoms i j⟩
+  ⟨bif a.top == .symbol && (Flat.slice a.atoms i j).isEmpty then .string else a.top, Flat.slice a.atoms i j⟩
 
 /-- `a[i]` -/
 def index (a : Abs) (i : Int) : Except RT.Err Abs :=
